@@ -605,9 +605,10 @@ def run(ctx, bt):
     for sp in corpus():
         run_history_observed(bt, copy.deepcopy(sp), ctx.rng, len(sp["ops"]), [Monitor(ctx, 1.0)], ctx)
         ctx.evaluations += 1
+    run_engine_protocol(ctx, bt, ctx.scale(90, 900), [Monitor(ctx)], None, None, corr_name="step[C08]:whole-snapshot")
+    # (after the older families, whose random streams are left as they were)
     run_engine_protocol(ctx, bt, ctx.scale(12, 300), [ReadAllTwin(ctx)], None, None,
                         spec_mutator=zero_cash_trades, corr_name="step[C08]:zero-cash-trade-then-read")
-    run_engine_protocol(ctx, bt, ctx.scale(90, 900), [Monitor(ctx)], None, None, corr_name="step[C08]:whole-snapshot")
 
 
 def search(ctx, bt):
